@@ -5,6 +5,10 @@ ROOT = os.path.dirname(os.path.dirname(os.path.abspath(__file__)))
 props = [json.loads(l) for l in open(os.path.join(ROOT, "properties.jsonl"))]
 
 CHECKS = {
+ "C07": dict(level="proof", design="6/C07",
+   text="Lean theorems: while processing is off a line without marker becomes one CT_IGNORED chunk holding the whole line (model of parse_ignored, literal markers); output_text() writes a CT_IGNORED chunk raw, independent of and without touching the machine state. Tie: hook-trace replay through the Render model; monitor H-region (between the markers the chunk list handed to output_text() holds the input lines). Oracle on real bytes: region lines byte-identical and in order, blank lines, opacity under replacement of the body (generated programs with regions at every statement position, three marker kinds, unterminated regions, code-modifying option sets)",
+   note="trusted: Lean kernel; models IgnoredScan/Render validated by correspondence; regex markers not modelled; that no pass between tokenizer and output touches region chunks is monitored (H-region), not proved; four known findings listed in known_findings.json",
+   technique="Lean 4 proof over hand-written model + hook-trace correspondence + monitor + byte oracle"),
  "C08": dict(level="proof", design="6/C08",
    text="Lean theorems: every CR/LF the output machine emits is part of a whole copy of cpd.newline for every op sequence and every chunk list (addchar_terminators, render_terminators), terminator choice and whitespace census (Props/C08.lean); the hand-written models are tied to the code by replaying the hook trace of every run through the model (op sequence and bytes must agree) and by comparing chooseNewline with the real cpd.newline; direct oracles on real bytes (stray CR/LF scan, conversion commutes, crlf = lf with terminators replaced)",
    note="trusted: Lean kernel; models AddChar/Render/LineEnd validated by correspondence; comment writers are an oracle whose recorded ops are replayed; hypothesis 'raw writes carry no CR/LF' monitored",
